@@ -7,7 +7,7 @@ from rdflib import URIRef
 from .constraints import ConstraintComponent
 from .consts import SH, RDF_type, RDFS_subClassOf, SH_parameter, SH_select, SH_SPARQLTargetType
 from .errors import ConstraintLoadError, ShapeLoadError
-from .helper import get_query_helper_cls
+from .helper import get_query_helper_cls, query_from_shapes_graph
 from .parameter import SHACLParameter
 from .pytypes import GraphLike, SHACLExecutor
 
@@ -153,7 +153,9 @@ class BoundSPARQLTargetType(BoundSHACLTargetType):
         # init_binds, sparql_text = qh.pre_bind_variables(self.target_type.node, extravars=bind_vals.keys())
         # init_binds.update(bind_vals)
         sparql_text = qh.apply_prefixes(qh.select_text)
-        results = data_graph.query(sparql_text, initBindings=bind_vals)
+        results = query_from_shapes_graph(
+            data_graph, sparql_text, bind_vals, ShapeLoadError, "The sh:select of a SPARQL target type"
+        )
         return results
 
 
